@@ -157,6 +157,16 @@ Theorem sav_guard_shape : forall i, is_approval i = Ok false -> sav_winner i = E
 Proof. exact Proofs.ScoringSAV.sav_guard_shape. Qed.
 Print Assumptions sav_guard_shape.
 
+(* ---- the guard of the two approval rules decides the documented notion of an approval profile:
+        every ballot is a single class, or every ballot is complete with at most two classes ---- *)
+Theorem is_approval_spec : forall i, wf_inst i -> dt_in (dt i) [Toc; Soc; Toi; Soi; Cat] = true ->
+  (is_approval i = Ok true <->
+   (forall om, In om (prof i) -> length (fst om) = 1) \/
+   ((forall om, In om (prof i) -> length (fst om) <= 2) /\
+    (forall om, In om (prof i) -> length (concat (fst om)) = length (alts i)))).
+Proof. exact Proofs.Scoring.is_approval_spec. Qed.
+Print Assumptions is_approval_spec.
+
 (* ---- the hypotheses are satisfiable by non-trivial inputs ---- *)
 (* the profile on which summed margins and contests won differ (fix fbdf4f2): 1 wins both contests *)
 Definition ex_soc : inst :=
